@@ -9,7 +9,8 @@ import jsonschema
 
 from drivers import _wire3_world as W
 
-SHAPE = {"p": "prod", "ph": "prodh", "x": "exch"}
+SHAPE = {"p": "prod", "ph": "prodh", "p0": "prod", "x": "exch"}
+CAP_BYTES = 2048       # max_record_bytes of the second formatter every record is also rendered with
 _CAP = W.AccessCapture()
 _LOCK = threading.Lock()
 _STATE: dict = {}
@@ -35,6 +36,7 @@ def install(level: int = logging.INFO) -> None:
         jsonschema.Draft202012Validator.check_schema(schema)
         _STATE["schema"] = jsonschema.Draft202012Validator(schema)
         _STATE["fmt"] = VgiAccessLogFormatter()
+        _STATE["cfmt"] = VgiAccessLogFormatter(max_record_bytes=CAP_BYTES)
 
 
 def set_level(level: int) -> None:
@@ -65,8 +67,15 @@ def _events_of_stream(res: dict) -> list:
     return ev
 
 
-DEPLOYS = ("warm", "nocache", "two", "evict")
+DEPLOYS = ("warm", "nocache", "two", "evict", "sticky", "auth", "hook")      # HTTP; sockets: "warm" (pipe), "unix", "hook"
 INTERFERER = "xh"      # method of the interfering stream of the "evict" deployment (no C34 history uses it)
+
+
+def _authenticate(req):
+    from vgi_rpc.rpc import AuthContext
+
+    return AuthContext(domain="test-realm", authenticated=True, principal="alice",
+                       claims={"sub": "alice", "email": "alice@example.org", "roles": ["a", "b"], "ctx": {"tier": 2}})
 
 
 def _http_world(tr: str, deploy: str, worlds: dict):
@@ -78,7 +87,11 @@ def _http_world(tr: str, deploy: str, worlds: dict):
             kw["call_state_cache_entries"] = 0          # every continuation misses the call-state cache
         elif deploy == "evict":
             kw["call_state_cache_entries"] = 1          # two interleaved streams evict each other's entry
-        w = worlds[key] = W.HttpWorld(workers=2 if deploy == "two" else 1, **kw)
+        elif deploy == "sticky":
+            kw["enable_sticky"] = True                  # sticky-session middleware in the path (session_action fields)
+        elif deploy == "auth":
+            kw["authenticate"] = _authenticate          # authenticated caller with claims
+        w = worlds[key] = W.HttpWorld(workers=2 if deploy == "two" else 1, hook=deploy == "hook", **kw)
     return w
 
 
@@ -93,7 +106,8 @@ def run_history(tr: str, script: list, cls: str, text: str, argc: int, worlds: d
     if http:
         w = _http_world(tr, deploy, worlds)
     else:
-        w = W.PipeWorld()          # one fresh real connection per history
+        # one fresh real connection per history: a pipe, a unix socket pair, or a pipe whose server has a raising hook
+        w = W.PipeWorld(pair="unix" if deploy == "unix" else "pipe", hook=deploy == "hook")
     _CAP.take()
     del W.TRUTH_ALL[:]
     events: list = []
@@ -117,6 +131,20 @@ def run_history(tr: str, script: list, cls: str, text: str, argc: int, worlds: d
     def body():
         for c in script:
             n_truth = sum(1 for t in W.TRUTH_ALL if t["type"])
+            if c["k"] == "d":
+                try:
+                    if http:
+                        from vgi_rpc.http import http_introspect
+
+                        d = http_introspect(client=w.client)
+                    else:
+                        from vgi_rpc.introspect import introspect
+
+                        d = introspect(w.ct)
+                    events.append(["call", "ok" if d is not None else "bad"])
+                except W.RpcError:
+                    events.append(["call", "err"])
+                continue
             if c["k"] == "big":
                 try:
                     r = w.px.big(n=W.BIG_CHARS)
@@ -126,7 +154,8 @@ def run_history(tr: str, script: list, cls: str, text: str, argc: int, worlds: d
                     errs.append(("client", e.error_message.removeprefix(str(e.error_type) + ": ")))
                 continue
             shape = "unary" if c["k"] == "u" else SHAPE[c["k"]]
-            res = W.run_call(w.px, shape, cls, text, argc, c["site"], list(c["ops"]), http)
+            site = "fin1" if c["k"] == "p0" else c["site"]
+            res = W.run_call(w.px, shape, cls, text, argc, site, list(c["ops"]), http)
             if shape == "unary":
                 k = res["events"][0][0]
                 events.append(["call", "ok" if k == "result" else "err" if k == "err" else "exc:" + str(res["events"][0][-1])])
@@ -166,7 +195,7 @@ def run_history(tr: str, script: list, cls: str, text: str, argc: int, worlds: d
 
 def project(records: list, errs: list) -> tuple[list, list]:
     """LogRecords -> (projection for TLC, details for the evidence)."""
-    fmt, validator = _STATE["fmt"], _STATE["schema"]
+    fmt, cfmt, validator = _STATE["fmt"], _STATE["cfmt"], _STATE["schema"]
     out, det = [], []
     sids: dict = {}
     k_err = 0
@@ -177,7 +206,7 @@ def project(records: list, errs: list) -> tuple[list, list]:
             payload = json.loads(line)
         except Exception as e:  # noqa: BLE001
             out.append({"mtype": "?", "method": "?", "sid": 0, "status": "?", "hasMsg": False, "full": False,
-                        "valid": False, "cancelled": False})
+                        "valid": False, "cancelled": False, "csid": 0, "chasMsg": False, "cfull": False, "cvalid": False})
             det.append({"unparseable": repr(e), "line": line[:300]})
             continue
         if "\n" in line:
@@ -189,16 +218,35 @@ def project(records: list, errs: list) -> tuple[list, list]:
             sids.setdefault(sid, len(sids) + 1)
         em = payload.get("error_message")
         status = payload.get("status")
-        full = True
+        # the same record through the formatter with a small per-record cap (field shedding / sentinel form)
+        cline = cfmt.format(r)
+        try:
+            cpayload = json.loads(cline)
+            cproblems = [f"{'/'.join(str(x) for x in e.absolute_path) or '<record>'}: {e.message[:160]}"
+                         for e in validator.iter_errors(cpayload)]
+        except Exception as e:  # noqa: BLE001
+            cpayload, cproblems = {}, [f"unparseable: {e!r}"]
+        csid = cpayload.get("stream_id")
+        if csid:
+            sids.setdefault(csid, len(sids) + 1)
+        cem = cpayload.get("error_message")
+        full = cfull = True
         if status == "error":
             if k_err < len(errs):
-                full = isinstance(em, str) and errs[k_err][1] in em if errs[k_err][1] else True
-                info["server_text_len"] = len(errs[k_err][1])
+                text = errs[k_err][1]
+                full = (isinstance(em, str) and text in em) if text else True
+                cfull = (isinstance(cem, str) and text in cem) if text else True
+                info["server_text_len"] = len(text)
             k_err += 1
         out.append({"mtype": str(payload.get("method_type")), "method": str(payload.get("method")),
                     "sid": sids.get(sid, 0), "status": str(status), "hasMsg": isinstance(em, str) and len(em) > 0,
                     "full": bool(full), "valid": not problems and "\n" not in line,
-                    "cancelled": payload.get("cancelled") is True})
+                    "cancelled": payload.get("cancelled") is True,
+                    "csid": sids.get(csid, 0), "chasMsg": isinstance(cem, str) and len(cem) > 0, "cfull": bool(cfull),
+                    "cvalid": not cproblems and "\n" not in cline})
+        if cproblems:
+            info["capped_schema_problems"] = cproblems
+            info["capped_truncated"] = cpayload.get("truncated")
         info.update({"schema_problems": problems, "error_message_len": len(em) if isinstance(em, str) else None,
                      "error_type": payload.get("error_type"), "http_status": payload.get("http_status"),
                      "stream_id": sid, "truncated": payload.get("truncated"),
